@@ -657,7 +657,13 @@ func ruleUnloadRollback(c *Ctx) {
 	// (a) persist only on commit
 	persist := f.CallSites(symDAOPersist)
 	if len(persist) == 0 {
-		c.Lost("unload.persist", "unload callback does not persist the wrapped layer")
+		// persisting the raw store of the layer instead of the layer itself merges the key/value pairs but drops the
+		// layer's copies of the native caches: the callee's native-setting changes land in storage, not in the cache
+		if raw := f.CallSites("pkg/core/storage.(*MemCachedStore).Persist", "pkg/core/storage.(*MemCachedStore).PersistSync"); len(raw) > 0 {
+			c.Fail("unload.persist", c.P.Pos(raw[0].call.Pos()), "the unload callback commits the callee's layer through the store's Persist instead of dao.Simple.Persist: storage is merged into the caller's layer but the native caches of the callee's layer are dropped, so a successful try-wrapped call loses its native-setting changes from the node's caches")
+		} else {
+			c.Lost("unload.persist", "unload callback does not persist the wrapped layer")
+		}
 	} else {
 		for _, g := range []Guard{
 			{ID: "commit", Doc: "the callee's layer is persisted only when the context unloads without an uncaught exception", Alts: [][]string{{"param#2"}}},
